@@ -19,7 +19,8 @@ COUNTS = {"quick": 3000, "thorough": 300000}
 RULE = ("seeded histories of 3-40 block commands (WRITE/READ 10/12/16, WRITE SAME 10/16 incl. NDOB/UNMAP/ANCHOR, SYNCHRONIZE CACHE, "
         "READ CAPACITY (all fields of the 16-byte form varied), INQUIRY, some out of range) with boundary-biased LBAs over capacities "
         "up to 2**64-1, block sizes {1,3,512,520,4096}; 12% of the histories on a writable MMC unit (type 05h, 2048-byte sectors, "
-        "READ/WRITE 10/12), 8% identity-only on a unit of any of the 32 device types; unique payload per write, run on an SG_IO device and an iSCSI device; fault-free and status-fault "
+        "READ/WRITE 10/12), 8% identity-only on a unit of any of the 32 device types; rare single commands moving 16 MiB +/- one block; "
+        "devices opened read-write by the constructors or by init_device (the SG_IO stub refuses data-out on a read-only descriptor); unique payload per write, run on an SG_IO device and an iSCSI device; fault-free and status-fault "
         "configurations are separate. Non-trivial = at least one read returned data written earlier in the same history; "
         "distinct = event digest")
 COMPONENTS = {"real": ["SCSI facade", "Read/Write/WriteSame/SynchronizeCache/ReadCapacity/Inquiry command classes", "SCSIDevice", "ISCSIDevice"],
@@ -27,10 +28,10 @@ COMPONENTS = {"real": ["SCSI facade", "Read/Write/WriteSame/SynchronizeCache/Rea
               "simulated_peers": ["t10.targets.BlockLU (sparse disk, decodes CDBs from the standard)", "t10.targets.MmcLU (same disk behind the MMC command set)", "t10.targets.GenericLU (identity only)"]}
 ASSUMPTIONS = [
     "the BlockLU ignores UNMAP (allowed) and rejects ANCHOR without UNMAP, NUMBER OF LOGICAL BLOCKS = 0 beyond 65536 blocks, and out-of-range LBAs with the SBC sense codes",
-    "transfer lengths above 2**17 blocks are not explored (the library allocates blocksize*tl bytes)",
+    "transfer lengths above 2**17 blocks (1-byte blocks) resp. 16 MiB + one block are not explored (the library allocates blocksize*tl bytes)",
     "result names read: returned_lba, block_length, p_type, prot_en, p_i_exponent, lbppbe, lbpme, lbprz, lowest_aligned_lba, t10_vendor_identification, product_identification, product_revision_level, peripheral_device_type",
 ]
-REQUIRED_PROBES = ["readback_written", "lba_above_32bit", "ndob", "out_of_range_cc", "status", "shared_facade", "mmc_unit", "geometry16_ok"]
+REQUIRED_PROBES = ["readback_written", "lba_above_32bit", "ndob", "out_of_range_cc", "status", "shared_facade", "mmc_unit", "geometry16_ok", "via_init_device"]
 
 BS = [512, 512, 1, 1, 3, 520, 4096]
 CAPS = [64, 1 << 20, (1 << 32) + 1000, (1 << 40), (1 << 64) - 1]
@@ -61,8 +62,14 @@ def gen_op(rng, cfg, hot, counter):
     width = rng.choice([10, 12, 16])
     bits = 64 if width == 16 else 32
     big = bs == 1
+    huge = None
+    if bs in (512, 520, 4096) and nb >= (1 << 20) and rng.random() < 0.006:
+        # one command that moves 16 MiB or a little more or less (transport length fields of 24 bits end there)
+        huge = (1 << 24) // bs + rng.choice([-1, 0, 1])
     if r < 0.3:
         tl = rng.choice([0, 1, 1, 2, 3, 7] + ([255, 256, 4097, 65535, 65536, 65537, 1 << 17] if big and width != 10 else []) + ([255, 256, 65535] if big else []))
+        if huge:
+            tl = huge
         if width == 10:
             tl = min(tl, 65535)
         lba = _lba(rng, bits, nb, tl, hot)
@@ -83,6 +90,8 @@ def gen_op(rng, cfg, hot, counter):
             op["ndob"] = 1
     elif r < 0.8:
         tl = rng.choice([0, 1, 1, 2, 3, 8] + ([255, 256, 4097, 65535] if big else []) + ([65536, 65537, 100000, 1 << 17] if big and width != 10 else []))
+        if huge:
+            tl = huge
         if width == 10:
             tl = min(tl, 65535)
         lba = _lba(rng, bits, nb, tl, hot)
@@ -156,7 +165,9 @@ def generate(rng, idx, tier):
             if b == 2:
                 op["fault"]["sense"] = S.fixed(rng.choice([2, 3, 4, 6, 0xB]), *rng.choice([(0x04, 0x01), (0x29, 0x00), (0x11, 0x00), (0x44, 0x00)])).hex()
         ops.append(op)
-    return {"property": ID, "config": {"lu": cfg, "faulty": faulty, "d_sense": rng.random() < 0.3, "shared_facade": rng.random() < 0.4}, "ops": ops}
+    return {"property": ID, "config": {"lu": cfg, "faulty": faulty, "d_sense": rng.random() < 0.3, "shared_facade": rng.random() < 0.4,
+                                       # how the application gets its device objects: the constructors, or init_device(path, read_write=True)
+                                       "via_init_device": rng.random() < 0.3}, "ops": ops}
 
 
 # ---- reference model -------------------------------------------------------
@@ -250,6 +261,14 @@ def execute(prog):
     V = []
     side = {}
     shared = None
+    WORLD.flags["enforce_open_mode"] = True      # like the sg driver: no data-out command through a descriptor opened read-only
+
+    def attach_failed(t, e):
+        V.append(dict(oracle="C12.unexpected-error", where="%s/attach" % t, detail=type(e).__name__,
+                      expected="a device object and a facade with block size %d for a conformant %d-byte-block unit" % (bs, bs), actual=repr(e)[:120]))
+        return {"digest": WORLD.digest(), "violations": V, "nontrivial": False, "stats": {"events": len(WORLD.events)}, "summary": ["attach failed"],
+                "events_tail": WORLD.events[-4:]}
+
     for n, t in enumerate(TRANSPORTS):
         lu = worlds.make_lu(cfg, ident=7 + n)       # two physically distinct, identically initialised LUs
         lu.d_sense = bool(prog["config"].get("d_sense"))
@@ -259,17 +278,30 @@ def execute(prog):
         if hasattr(lu, "_blk"):
             lu._blk.d_sense = lu.d_sense
             WORLD.probe("mmc_unit")
-        dev = worlds.open_device(t, lu)
-        if prog["config"].get("shared_facade"):
-            # one facade object, re-pointed to the other device before every command (s(dev))
-            if shared is None:
-                shared = SCSI(dev, blocksize=bs)
+        try:
+            if prog["config"].get("via_init_device"):
+                from pyscsi.utils import init_device
+                if t == "sgio":
+                    WORLD.plug(worlds.SG_PATH, lu)
+                    dev = init_device(worlds.SG_PATH, read_write=True)
+                else:
+                    WORLD.iscsi_targets[worlds.ISCSI_KEY] = lu
+                    dev = init_device(worlds.ISCSI_URL, read_write=True)
+                WORLD.probe("via_init_device")
             else:
-                shared(dev)
-            scsi = shared
-            WORLD.probe("shared_facade")
-        else:
-            scsi = SCSI(dev, blocksize=bs)
+                dev = worlds.open_device(t, lu, readwrite=True) if t == "sgio" else worlds.open_device(t, lu)
+            if prog["config"].get("shared_facade"):
+                # one facade object, re-pointed to the other device before every command (s(dev))
+                if shared is None:
+                    shared = SCSI(dev, blocksize=bs)
+                else:
+                    shared(dev)
+                scsi = shared
+                WORLD.probe("shared_facade")
+            else:
+                scsi = SCSI(dev, blocksize=bs)
+        except Exception as e:  # noqa - building the objects is part of what is judged
+            return attach_failed(t, e)
         side[t] = {"lu": lu, "dev": dev, "scsi": scsi, "model": Model(bs, cfg["nblocks"])}
     summary = []
     retained = []       # data buffers of earlier reads the application keeps (the command object itself is dropped)
